@@ -36,7 +36,11 @@ def clear_values(tree):
     pass
 
 
+CALLS = [0]     # number of far-field evaluations handed to the library (used by C18 to see whether the library or bempp's dense fallback ran)
+
+
 def exact(tree, green):
+    CALLS[0] += 1
     """green(r) -> (G, dG/dr) as arrays; returns (ntargets, 4)."""
     x, y, q = tree.targets, tree.sources, tree.charges
     out = np.zeros((len(x), 4), dtype=np.result_type(q.dtype, green(np.array([1.0]))[0].dtype))
